@@ -1,6 +1,7 @@
 (* C18 property theorems. This file contains only statements closed by
    [exact lemma] and Print Assumptions. *)
-From V Require Import Common.Base C18.Pieces C18.PiecesProofs C18.Hash C18.HashProofs C18.XXHash C18.NameProofs C18.LoopProofs C18.Ingredients C18.DeepProofs C18.Inventory C18.Escape C18.EscapeProofs C18.CleanProofs.
+From V Require Import Common.Base C18.Pieces C18.PiecesProofs C18.Hash C18.HashProofs C18.XXHash C18.NameProofs C18.LoopProofs C18.Ingredients C18.DeepProofs C18.Inventory C18.Escape C18.EscapeProofs C18.CleanProofs C18.SurviveProofs C18.Paths C18.PathsProofs C18.ResolveProofs.
+From V Require Import C17.WriteSM C17.PathModel.
 From V Require gen.HashInventoryGen.
 
 (* breakOutputIntoPieces terminates on every output (the model's fuel always
@@ -128,7 +129,7 @@ Print Assumptions same_name_same_bytes_partial.
    data ++ prefix is at the end of data) - the converse of pieces_lossless,
    proved in C18/CleanProofs.v (same statements as in C19/SubstProofs.v, where they were first written). *)
 Theorem clean_text_is_split_at_its_keys : forall prefix nf nc ps,
-  clean prefix nf nc ps -> break_output prefix nf nc (join_with_keys prefix ps) = Some ps.
+  CleanProofs.clean prefix nf nc ps -> break_output prefix nf nc (join_with_keys prefix ps) = Some ps.
 Proof. exact (fun prefix nf nc ps Hc => break_clean prefix nf nc ps Hc _ (Nat.lt_succ_diag_r _)). Qed.
 Print Assumptions clean_text_is_split_at_its_keys.
 
@@ -241,3 +242,48 @@ Theorem accurate_count_with_escaping : forall isCSS pathOf ps,
   accurate_count_esc isCSS pathOf ps = Z.of_nat (length (substitute_esc isCSS pathOf ps)).
 Proof. exact accurate_count_esc_length. Qed.
 Print Assumptions accurate_count_with_escaping.
+
+(* ---------------- round 2: paths out of the parameters ---------------- *)
+
+(* import_path_resolves: fs.Rel / pathBetweenChunks are no longer a parameter
+   (C17's goFilepath model: clean, fs_join, rel).  For relative final paths
+   whose cleaned elements are plain (not empty, ".", "..", no slash, NO
+   BACKSLASH; the target does not clean to "." - there goFilepath.rel has a quirk
+   outside the tied domain of the model): the text printed for a reference, read as a string of the
+   output's language, and joined with the importing file's directory the way
+   Node / a browser / filepath.Join resolve it, is the imported file's path. *)
+Theorem import_path_resolves : forall isCSS dir to,
+  dir <> [] -> is_rooted dir = false -> is_rooted to = false ->
+  Forall plain (clean_segs dir) -> Forall plain (clean_segs to) -> clean_segs to <> [] ->
+  Forall (fun c => 0 <= c < 256) (path_between [] dir to) ->
+  exists spec, unescape isCSS (escape_final_path isCSS (path_between [] dir to)) = Some spec /\
+               fs_join dir spec = clean to.
+Proof. exact import_path_resolves_all. Qed.
+Print Assumptions import_path_resolves.
+
+(* with a public path: public path, exactly one slash, the final path *)
+Theorem import_path_resolves_public : forall public dir to,
+  public <> [] -> has_prefix [46; 47] to = false ->
+  path_between public dir to = public ++ (if ends_with_slash public then [] else [SL]) ++ to.
+Proof. exact path_between_public. Qed.
+Print Assumptions import_path_resolves_public.
+
+(* without "no backslash in names" the statement is false (finding K3): the file
+   d\q.js in the output directory is referred to as ./d/q.js *)
+Theorem import_path_resolves_refuted :
+  exists dir to, dir <> [] /\ is_rooted dir = false /\ is_rooted to = false /\
+    fs_join dir (path_between [] dir to) <> clean to.
+Proof. exact path_between_backslash_refuted. Qed.
+Print Assumptions import_path_resolves_refuted.
+
+(* no_placeholder_survives, occurrences that overlap a substituted path included:
+   if the last data piece is free of the prefix (clean input) and no WINDOW
+   around a substituted path (|prefix|-1 bytes before, the path, |prefix|-1
+   bytes after) contains the prefix, the substituted output does not contain it *)
+Theorem no_placeholder_survives_overlapping : forall prefix nf nc out ps pathOf,
+  prefix <> [] -> break_output prefix nf nc out = Some ps ->
+  occurs prefix (pdata (last ps (mkPiece [] 0 0))) = false ->
+  windows_free prefix pathOf ps ->
+  occurs prefix (substitute pathOf ps) = false.
+Proof. exact no_placeholder_survives_overlap. Qed.
+Print Assumptions no_placeholder_survives_overlapping.
